@@ -80,3 +80,26 @@ _p("C15", level="fault_enumeration", quick=40, thorough=900, rule=WT_RULE, quick
    level_text=("fault_enumeration for the truncation/stream-error clause: for each generated valid corpus the stream is cut / faulted at offset (run index mod length), so a batch of "
                "consecutive run indices covers every byte offset; the remaining clauses (arbitrary bytes, limits, partial consumption) are seeded exploration"),
    assume=["the documented 1000-reads panic guard is never provoked (at most 10 reads after the first error)", "a 64-bit length with the top bit set must be rejected; any other length is legal"])
+
+ADM_RULE = ("scenario i = GenAdmission(splitmix64(VERIF_SEED,i)): attach-option shape (none, server-only, path with/without slash, addTrailingSlash on/off), enabled transports, "
+            "allowEIO3, allow-request hook, failing middleware, CORS; 0-2 canary sessions (one possibly upgrading, one closing); a raw client issues 4-30 requests from the grammar "
+            "(path variants, method, transport/EIO/j/b64/garbage parameters, sid unknown/closed/other-transport, Origin bytes incl. control characters, plain vs WebSocket upgrade), "
+            "each compared with a reference of path matching and check precedence")
+_p("C05", quick=60, thorough=1200, rule=ADM_RULE, quick_runs=12000,
+   assume=["the decision itself is a function of (options, request, registry): the simulator contributes the registry/upgrade states and the non-interference clause; the pure part is a seeded input sweep, claimed as such",
+           "prefix matching applies when the mount path ends in a slash, exact matching otherwise (weakest reading)",
+           "requests racing with the opening/closing of the session they name are not judged"])
+
+HOSTILE_RULE = ("scenario i = GenHostile(splitmix64(VERIF_SEED,i)): 1-2 canary sessions plus 1-2 raw clients generated from the protocol grammar with mutated fields: "
+                "polling sessions with mutated / truncated / inflated payloads of both revisions (string, binary and JSONP forms, every packet type, invalid UTF-8 and base64), "
+                "overlapping and aborted requests, upgrade candidates whose EIO differs from the handshake, WebSocket sessions fed raw frames (reserved opcodes, fragmented control frames, huge lengths), "
+                "WebTransport sessions with hostile handshake packets; the engine.io-go-parser dependency is vendored and instrumented so that its decode loops are pre-emptible and counted")
+_p("C09", quick=90, thorough=1800, rule=HOSTILE_RULE, quick_runs=12000,
+   real=REAL_DEFAULT + ["engine.io-go-parser (vendored next to the scratch copy and statement-instrumented like the repository)"],
+   assume=["grammar-based seeded mutation inside the simulator replaces coverage-guided byte fuzzing (stated in DESIGN.md)",
+           "work out of proportion = more than 3,000,000 yield points or the hand-off limit in one run whose clients send a few kilobytes; a wall-clock watchdog (30 s) backs it up for loops without yield points",
+           "a panic in any goroutine counts (net/http would recover one in a handler goroutine, the property's wording does not)"])
+LIMIT_RULE = ("scenario i = GenLimits(splitmix64(VERIF_SEED,i)): maxHttpBufferSize in {1,10,100,1000,100000}; a raw client posts bodies of limit-1, limit, limit+1, limit+2, 2*limit, +100 KB, +1 MiB "
+              "with declared or unknown Content-Length, single or multi-packet, revision 3 or 4, or sends WebSocket frames (also fragmented) / WebTransport frames of those sizes, next to canary sessions")
+_p("C10", quick=60, thorough=1200, rule=LIMIT_RULE, quick_runs=12000,
+   assume=["'a constant number of bytes' is read as 64 KiB"])
